@@ -892,6 +892,16 @@ class E2E:
             ctx.sample({"stream": name, "input": self.cases[i][0][:300], "impl": self.cases[i][1][:300]})
 
 
+def canon_matrix_model(mo):
+    """model output of an `rs` line -> what is observable end-to-end: the cache flag is checked through the
+    cache directory listing, and Content-Length is always recomputed by the core after response_start"""
+    t = mo.split(" ")
+    if len(t) != 7:
+        return mo
+    t[0] = ":".join(t[0].split(":")[:2])
+    return " ".join(t[:5] + t[6:])
+
+
 def size_class(n):
     for b in (0, 1, 256, 4096, 16384, 32768, 65536, 131072, 1048576):
         if n <= b:
@@ -1044,11 +1054,16 @@ def e2e_check_cache_dir(E, srv, files, rep0):
 T0_NS = 1700000000 * 10 ** 9
 
 
-def e2e_history_batch(E, bd, histories):
-    """each history: list of ('M', v, content) / ('R', label); one file per history on one server"""
+def e2e_history_batch(E, bd, histories, settle=0.0):
+    """each history: list of ('M', v, content) / ('R', label); one file per history on one server.
+    settle = 0: stat cache disabled (every request sees the current stat of the source);
+    settle > 0: default stat cache ("simple": entries are valid within one second), the next
+    request after a modification is sent `settle` seconds later"""
     conf, _ = E2E_CONFS["cache"]
+    if settle:
+        conf = conf.replace('server.stat-cache-engine = "disable"\n', "")
     srv = e2e.Server(bd, conf, modules=("mod_deflate",))
-    rep0 = {"scenario": "history", "config": "cache", "conf": conf}
+    rep0 = {"scenario": "history", "config": "cache" if not settle else "cache+stat-cache", "conf": conf}
     try:
         with srv:
             for hi, (hist, collide) in enumerate(histories):
@@ -1067,6 +1082,8 @@ def e2e_history_batch(E, bd, histories):
                             f.write(content)
                         os.utime(fpath, ns=(T0_NS + v * 10 ** 9, T0_NS + v * 10 ** 9))
                         cur = content
+                        if settle:
+                            time.sleep(settle)
                         r, err = h1_get(srv.port, path)
                         if err or r["status"] != 200:
                             bad = True
@@ -1111,7 +1128,7 @@ def e2e_history_batch(E, bd, histories):
                         lst.append("T:0:%s:%s:pid:part" % (etag2v.get(etag, "?"), label))
                 E.case("cache " + " ".join(ops), " ".join(obs + ["|"] + sorted(lst)),
                        dict(rep0, history_ops=len(hist), collide=collide),
-                       "e2e:history:%s:mods%d:reqs%d" % ("collide" if collide else "distinct",
+                       "e2e:history%s:%s:mods%d:reqs%d" % ("+statcache" if settle else "", "collide" if collide else "distinct",
                                                           min(4, sum(1 for o in hist if o[0] == "M")),
                                                           min(6, sum(1 for o in hist if o[0] == "R"))))
         sr = srv.sanitizer_report()
@@ -1200,10 +1217,11 @@ def e2e_fault_one(E, bd, fname, label, seed):
         etag = e2e.hdr(r0, "etag").decode().strip('"')
         pid = srv.proc.pid
         pids.append(pid)
-        tmp = "%s/cache%s/a.txt-%s-%s.%d" % (srv.root, srv.docroot, etag, label, pid)
+        fin = "%s/cache%s/a.txt-%s-%s" % (srv.root, srv.docroot, etag, label)
+        tmp = "%s.%d" % (fin, pid)
         slog = os.path.join(srv.root, "strace.out")
         st = subprocess.Popen(["strace", "-f", "-p", str(pid), "-o", slog, "-e",
-                               "trace=write,rename,renameat,renameat2", "-P", tmp, "-e", "inject=" + inject],
+                               "trace=write,rename,renameat,renameat2", "-P", tmp, "-P", fin, "-e", "inject=" + inject],
                               stdout=subprocess.PIPE, stderr=subprocess.STDOUT)
         t_end = time.time() + 5
         attached = False
@@ -1341,20 +1359,17 @@ def run_e2e(ctx):
                 jobs.append(ex.submit(e2e_matrix_one, EA, bd, cname, files[k::parts], ae_forms, ctx.quick))
         for b in batches:
             jobs.append(ex.submit(e2e_history_batch, EB, bd, b))
+        # default stat cache engine: the first request after a change is sent 2.3 s later (entry validity 1 s + one
+        # main-loop tick + slack)
+        hs2 = gen_e2e_histories(rng, 4 if ctx.quick else 32)
+        nb2 = 2 if ctx.quick else 8
+        for k in range(nb2):
+            jobs.append(ex.submit(e2e_history_batch, EB, bd, hs2[k::nb2], 2.3))
         if have_strace:
             for i, (f, lab) in enumerate(faults):
                 jobs.append(ex.submit(e2e_fault_one, EC, bd, f, lab, ctx.seed * 1000 + i))
         for j in jobs:
             j.result()
-    drop_cl = lambda mo: " ".join(mo.split(" ")[:5] + mo.split(" ")[6:]) if len(mo.split(" ")) == 7 else mo
-
-    def canon_matrix_model(mo):
-        t = mo.split(" ")
-        if len(t) != 7:
-            return mo
-        v = t[0].split(":")
-        t[0] = ":".join(v[:2])              # cache flag is checked through the cache directory listing
-        return " ".join(t[:5] + t[6:])
     EA.finish("e2e-matrix(lighttpd)", canon_matrix_model)
     EB.finish("e2e-history(lighttpd)", canon_history_model)
     EC.finish("e2e-faults(lighttpd+strace)", canon_history_model)
@@ -1379,9 +1394,7 @@ def replay_e2e(ctx, rep):
         E = E2E(ctx)
         ae = rep.get("accept_encoding", "gzip").encode("latin-1")
         e2e_matrix_one(E, bd, rep["config"], [(name, data)], [ae], True)
-        EA_canon = lambda mo: " ".join([":".join(mo.split(" ")[0].split(":")[:2])] + mo.split(" ")[1:5] + mo.split(" ")[6:]) \
-            if len(mo.split(" ")) == 7 else mo
-        E.finish("e2e-matrix(lighttpd)", EA_canon)
+        E.finish("e2e-matrix(lighttpd)", canon_matrix_model)
     else:
         print("re-running the seeded end-to-end stream (VERIF_SEED=%d)" % ctx.seed)
         run_e2e(ctx)
